@@ -190,15 +190,15 @@ def run(rep, tier, seed):
     vlib.prove(rep, extra_targets=["Extract/ExtractArrays.vo"])
     quick = tier == "quick"
     # 1. array_smashing<interval_domain> against the model, with the oracle on every answer
-    lines = arrays.gen(seed, tier, 700 if quick else 30000, {"meets": False})
+    lines = arrays.gen(seed, tier, 2500 if quick else 30000, {"meets": False})
     vlib.run_stream(rep, "smash-histories", "arrays", "arrays", lines, oracle=arrays.oracle,
                     nontrivial=arrays.nontrivial, key=lambda l: "history", extra_args=("--mode=smash-itv",))
     # the same with meets / narrowings: mirrored, outside the property's list of operations (no oracle)
-    lines = arrays.gen(seed + 1, tier, 400 if quick else 15000, {"meets": True, "corpus": False})
+    lines = arrays.gen(seed + 1, tier, 1200 if quick else 10000, {"meets": True, "corpus": False})
     vlib.run_stream(rep, "smash-histories-meet", "arrays", "arrays", lines, oracle=None,
                     nontrivial=arrays.nontrivial, key=lambda l: "history", extra_args=("--mode=smash-itv",))
     # 2. cell algebra and decision table of array_adaptive against ArrayAdaptCore
-    lines = arrays.gen_cells(seed, tier, 900 if quick else 40000)
+    lines = arrays.gen_cells(seed, tier, 3000 if quick else 40000)
     vlib.run_stream(rep, "cell-algebra", "arrays", "arrays", lines, oracle=None,
                     nontrivial=arrays.cells_nontrivial, key=lambda l: "cells", extra_args=("--mode=cells",))
     # 3. oracle search on the real domains
@@ -210,7 +210,7 @@ def run(rep, tier, seed):
     # arrays that are initialised in every register before anything else: loads from smashed arrays are checked too
     targets += [("adapt-fullinit-" + p.replace(":", "_"), "adapt-itv:" + p, {"fullinit": True, "corpus": False})
                 for p in (["1:1:64:64", "1:0:64:64"] if quick else ["1:1:64:64", "1:0:64:64", "1:1:8:64", "1:0:4:64"])]
-    search(rep, tier, seed, targets, 220 if quick else 6000)
+    search(rep, tier, seed, targets, 600 if quick else 3000)
     rep.cov.setdefault("search", {})["wall_s"] = round(time.time() - t0, 1)
     rep.cov["search"]["targets"] = [t[0] for t in targets]
 
